@@ -270,8 +270,33 @@ package dsl
 // The schema string of a protocol: a function of the protocol, the symbol table and the (unmodified) model.
 //@ func GetProtocolSchemaString
 //@   pure
+//@   reads-model
 
 //@ func (*GeneralizedType).ToScalar
 //@   pure
 //@ func (*Array).HasKnownNumberOfDimensions
+//@   pure
+
+// ---- C04: what the embedded schema depends on --------------------------------------------------------------------
+// Positions, annotations, resolution caches, version bookkeeping and computed expression types never reach the JSON
+// schema; every wire-relevant attribute does, under the documented key (docs/reference/protocol-schema.md).
+//@ json-hidden C04 dsl.NodeMeta.File dsl.NodeMeta.Line dsl.NodeMeta.Column dsl.NodeMeta.Annotations
+//@ json-hidden C04 dsl.DefinitionMeta.Namespace dsl.EnumDefinition.IsFlags dsl.ProtocolDefinition.Versions
+//@ json-hidden C04 dsl.Namespace.Versions dsl.Namespace.DefinitionChanges dsl.Namespace.References dsl.Namespace.IsTopLevel dsl.Environment.SymbolTable
+//@ json-visible C04 dsl.DefinitionMeta.Name=name dsl.DefinitionMeta.TypeParameters=typeParameters dsl.DefinitionMeta.TypeArguments=typeArguments
+//@ json-visible C04 dsl.RecordDefinition.Fields=fields dsl.Field.Name=name dsl.Field.Type=type
+//@ json-visible C04 dsl.ProtocolDefinition.Sequence=sequence dsl.ProtocolStep.Name=name dsl.ProtocolStep.Type=type
+//@ json-visible C04 dsl.EnumDefinition.BaseType=base dsl.EnumDefinition.Values=values dsl.EnumValue.Symbol=symbol dsl.EnumValue.IntegerValue=value
+//@ json-visible C04 dsl.TypeCase.Tag=tag dsl.TypeCase.Type=type dsl.Vector.Length=length dsl.Array.Dimensions=dimensions dsl.ArrayDimension.Length=length dsl.ArrayDimension.Name=name dsl.Map.KeyType=keyType
+//@ json-visible C04 dsl.ProtocolSchema.Protocol=protocol dsl.ProtocolSchema.Types=types
+
+// The types of a schema are ordered by their qualified name: the order of definitions and files cannot matter.
+//@ func GetProtocolSchema$2
+//@   property C04,C12,C13
+//@   ensures orders_by_qualified_name: result == (schema.Types[i].GetDefinitionMeta().GetQualifiedName() < schema.Types[j].GetDefinitionMeta().GetQualifiedName())
+
+// Interface observers: every implementation returns the address of the embedded DefinitionMeta (trusted: pure).
+//@ func dsl.TypeDefinition.GetDefinitionMeta
+//@   pure
+//@ func (*DefinitionMeta).GetQualifiedName
 //@   pure
